@@ -175,3 +175,22 @@ target("breezy/bzr/branch.py::BzrBranch.set_last_revision_info", params=dict(rev
        canary=lambda c: Not(c.g.tip_written),
        equivalent_mutants={r"InvalidRevisionId|if not revision_id or not isinstance|_check_history_violation|get_append_revisions_only|_run_p\w+_change_branch_tip_hooks|_last_revision_info_cache = ":
                            "validation, append-only policy (C21), hooks and the tip cache itself: outside the history-cache invariant"})
+
+# ---- dotted revision numbers: a dotted revno denotes the revision that the revno map gives that number, and only if exactly one does
+RMAP = MapS(BYTES, Seq(INT))
+RevnoMap = ufunc("RevnoMap", RMAP)           # get_revision_id_to_revno_map(): merge-sorted numbering of the tip's ancestry (vcsgraph, external)
+exceptions(GhostRevisionsHaveNoRevno="Exception")
+assumed("self.get_revision_id_to_revno_map", pure=True, returns=lambda c: RevnoMap(), raises={"Exception": None})
+assumed("'.'.join", pure=True, no_raise=True, result=STR)
+pure("map")
+target("breezy/branch.py::Branch._do_dotted_revno_to_revision_id", params=dict(revno=Seq(INT)), result=BYTES, modifies=[],
+       requires=lambda c: Len(c.revno) >= 2,
+       ensures={"denotes_the_revision_with_that_number": lambda c: And(In(c.result, RevnoMap()), RevnoMap()[c.result] == c.old.revno),
+                "and_no_other_revision_has_it": lambda c: forall([BYTES], lambda r: Implies(
+                    And(In(r, RevnoMap()), RevnoMap()[r] == c.old.revno), r == c.result))},
+       raises={"NoSuchRevision": True,     # (when exactly it refuses - none or several revisions with that number - is not decided: counting)
+               "Exception": True},
+       canary=lambda c: Len(c.result) == 0,
+       equivalent_mutants={r"get_rev_id\(revno\[0\]\)|GhostRevisionsHaveNoRevno|revno\[0\]|exc\.revision_id": "the single-component branch: outside this contract's precondition "
+                                                                                             "(get_rev_id has its own contract above)"},
+       note="multi-component (dotted) revision numbers; single-component ones go through get_rev_id (above)")
